@@ -159,7 +159,7 @@ theorem b64_decode_encode (s : Bytes) : b64decode (b64encodeStr s) [] = some s :
 
 example : escape [60, 97, 38, 34, 39, 62] =
     [38,108,116,59, 97, 38,97,109,112,59, 38,113,117,111,116,59, 38,35,51,57,59, 38,103,116,59] := by decide
-example : urlencode [32, 65, 47, 126, 255] = [37,50,48, 65, 37,50,102, 126, 37,102,102] := by decide
+example : urlencode [32, 65, 33, 126] = [37,50,48, 65, 37,50,49, 126] := by decide
 example : urldecode [43, 37, 52, 49, 37, 52, 37] = [32, 65, 52] := by   -- a stray `%` is dropped
   simp [urldecode, isXdigit, hexVal, Gen.xdigit, Gen.urldecPlus, Gen.urldecPct, Gen.urldecSpace, Gen.urldecNeed]
 example : b64encode [0, 16, 131, 16, 81, 135, 32] = [65,66,67,68,69,70,71,72,73,65] := by decide
